@@ -10,6 +10,7 @@ package dnssec
 import (
 	"encoding/base64"
 	"encoding/hex"
+	"slices"
 	"sort"
 	"strings"
 	"time"
@@ -172,6 +173,49 @@ func verifyDSWithWork(
 		lastErr = ErrMissingKSK
 	}
 	return false, lastErr
+}
+
+// DSAuthenticatedKeysWithWork returns the DNSKEYs of keyMap that a supported
+// DS of parentDSSet authenticates, grouped by key tag like keyMap. VerifyDS
+// answers "does the DS vouch for some key here"; this answers "for which",
+// which is what decides whether a DNSKEY RRset is authentic: RFC 4035 §5.2
+// accepts the RRset only under a signature made by a key the parent's DS
+// authenticates. Every DS is tried, so both keys of a rollover are found.
+func DSAuthenticatedKeysWithWork(
+	keyMap map[uint16][]*dns.DNSKEY,
+	parentDSSet []dns.RR,
+	work DSDigestWork,
+) (map[uint16][]*dns.DNSKEY, error) {
+	anchored := make(map[uint16][]*dns.DNSKEY)
+	for _, parentDS := range uniqueSortedDSRecords(parentDSSet) {
+		if !IsSupportedDS(parentDS) {
+			continue
+		}
+		wantDigest, decodeErr := hex.DecodeString(parentDS.Digest)
+		if decodeErr != nil || len(wantDigest) == 0 {
+			continue
+		}
+		var candidateUsed uint32
+		for _, ksk := range uniqueSortedDNSKEYs(keyMap[parentDS.KeyTag]) {
+			if !usableDSCandidate(parentDS, ksk) || slices.Contains(anchored[parentDS.KeyTag], ksk) {
+				continue
+			}
+			if work != nil {
+				if err := work.CheckDNSKEYCandidate(candidateUsed); err != nil {
+					return nil, wrapWorkError(err)
+				}
+			}
+			ok, err := runDSDigestMatch(work, ksk, parentDS.DigestType, wantDigest)
+			if err != nil {
+				return nil, err
+			}
+			candidateUsed++
+			if ok {
+				anchored[parentDS.KeyTag] = append(anchored[parentDS.KeyTag], ksk)
+			}
+		}
+	}
+	return anchored, nil
 }
 
 type dnskeyIdentity struct {
